@@ -611,6 +611,9 @@ def app(fname, a):
             return const({"cos": (1, 0, -1, 0), "sin": (0, 1, 0, -1)}[fname][k])
         # other concrete multiples of pi: a number (what libm returns for the double the code would form)
         return lift(_LIBM[fname](float(dd[PI]) * math.pi))
+    if fname in _LIBM and len(dd) == 1 and PI in dd:
+        # q*pi + c with concrete q, c: a number
+        return lift(_LIBM[fname](float(dd[PI]) * math.pi + float(cc)))
     return Sym("app", (fname, a), REAL)
 
 
